@@ -6,6 +6,8 @@
 //	(b) index/model         TrieBucketBuilder -> TrieBucket (several dictionaries, merge via Write)
 //	(c) index/v1 + kv       IndexKVFlusher -> kv family -> Family.Compact (IndexKVMergerV1) -> IndexKVReader
 //	(d) index.IndexKVStore  the caller lindb itself uses (memory + immutable + flushed + merged)
+//	(h) histories           earlier in-memory tries / loaded tries / buckets are kept alive while the same
+//	                        builders are reset and reused; every kept dictionary is re-checked after each step
 //
 // Oracle: a sorted slice and a map (oracle.go). Every batch of cases runs in a child process that
 // logs each case before it runs; panics of single operations are recovered per operation.
@@ -43,6 +45,7 @@ func plan(c *core.Ctx) []batch {
 			bs = append(bs, batch{Type: typ, Index: i, Cases: cases, Size: size})
 		}
 	}
+	add("hist", c.Pick(16, 400), c.Pick(6, 12), 0) // histories that keep earlier dictionaries alive while builders are reused
 	add("directed", c.Pick(2, 8), 1, 0) // hand-made sets around the empty key and 0xFF, random partitions
 	if c.Quick() {
 		add("huge", 0, 0, 0)
@@ -163,7 +166,8 @@ func main() {
 	}
 	// the run must have observed every layer
 	for _, k := range []string{"trie_serialise_load_roundtrips", "bucket_merges_of_2plus_dictionaries", "kv_compactions_merging_2plus_files",
-		"store_states_checked", "seek_present", "seek_absent", "prefix_enumerations_nonempty", "keysets_with_empty_key", "keysets_with_0xff",
+		"store_states_checked", "history_kept_dictionary_rechecks", "history_dictionaries_kept_in-memory-trie",
+		"history_dictionaries_kept_loaded-trie", "history_dictionaries_kept_bucket", "seek_present", "seek_absent", "prefix_enumerations_nonempty", "keysets_with_empty_key", "keysets_with_0xff",
 		"keysets_with_0x00", "keysets_with_key_prefix_of_other", "keysets_with_key_ge_256_bytes", "keysets_ge_1000_keys"} {
 		if c.Counter(k) == 0 {
 			c.Inconclusive("nothing observed for %s", k)
@@ -256,6 +260,10 @@ func childMain() {
 	case "store":
 		for i := 0; i < cases; i++ {
 			runStoreCase(r, rnd, fmt.Sprintf("store-%d-%d", idx, i), dir, genKeySet(rnd, "", 200), 50)
+		}
+	case "hist":
+		for i := 0; i < cases; i++ {
+			runHistoryCase(r, rnd, fmt.Sprintf("hist-%d/%d", idx, i), 6+rnd.Intn(7))
 		}
 	case "directed":
 		b := trie.NewBuilder()
